@@ -1,12 +1,18 @@
 import Aergo.Props.C05
 #print axioms Aergo.Props.C05.inv_init
 #print axioms Aergo.Props.C05.inv_addBlock
+#print axioms Aergo.Props.C05.inv_addOwn
 #print axioms Aergo.Props.C05.inv_setLib
+#print axioms Aergo.Props.C05.inv_arrive
 #print axioms Aergo.Props.C05.inv_history
+#print axioms Aergo.Props.C05.inv_of_checked_run
 #print axioms Aergo.Props.C05.path_to_genesis
 #print axioms Aergo.Props.C05.tx_found
 #print axioms Aergo.Props.C05.tx_confirmed_sound
 #print axioms Aergo.Props.C05.abandoned_not_confirmed
 #print axioms Aergo.Props.C05.receipts_exist
+#print axioms Aergo.Props.C05.receipts_query_sound
+#print axioms Aergo.Props.C05.receipts_queries_complete
+#print axioms Aergo.Props.C05.latest_key_persisted
 #print axioms Aergo.Props.C05.root_is_best
 #print axioms Aergo.Props.C05.forged_id_breaks_index
